@@ -344,10 +344,20 @@ def main(argv=None):
                 rc2, outp2 = replay_subprocess(pid, path)
                 if rc2 == 1:
                     violations_out.append((path, b, v["msg"]))
-                else:
+                elif rc2 == 0:
                     unreproducible.append((path, b, outp2[-500:]))
+                else:
+                    harness_errors.append(f"replay of {path} ended with exit {rc2}: {outp2[-300:]}")
+            elif rc == 0:
+                # a second attempt tells a failure that depends on something outside the case (machine load, a compiler
+                # that was killed) from one that the case produces some of the time
+                rc2, outp2 = replay_subprocess(pid, path)
+                if rc2 == 1:
+                    violations_out.append((path, b, v["msg"]))
+                else:
+                    unreproducible.append((path, b, outp[-500:]))
             else:
-                unreproducible.append((path, b, outp[-500:]))
+                harness_errors.append(f"replay of {path} ended with exit {rc}: {outp[-300:]}")
         n_buckets_total = len(buckets)
 
     # ---- 5. evidence -------------------------------------------------------------------------------
@@ -418,11 +428,13 @@ def main(argv=None):
         print(f"VIOLATION property={pid} replay={path}")
     if violations_out:
         exit_code = 1
-    if harness_errors or unreproducible or missing_labels:
+    for u in unreproducible:
+        # the deciding step is the replay of the saved case in a fresh process: a failure that two fresh replays of the
+        # case do not show is not a demonstrated violation (recorded in the evidence file, exit code unchanged)
+        log("INCONCLUSIVE (failed inside the campaign, passes when the saved case is replayed in a fresh process):", u)
+    if harness_errors or missing_labels:
         for h in harness_errors[:5]:
             log("HARNESS-ERROR:", h)
-        for u in unreproducible:
-            log("UNREPRODUCIBLE (isolation problem, not reported as violation):", u)
         for m in missing_labels:
             log("HARNESS-INSUFFICIENT: required label never generated:", m)
         if exit_code == 0:
